@@ -308,6 +308,10 @@ def _bump(d: Dict[str, int], k: str, n: int = 1):
 
 def _account(res: C.Result, cid: str, kind: str, case: Any, blk: List[str], meta: Dict[str, Any], verdict):
     X = res.extra
+    if kind in "SG":
+        for l in blk:
+            if l.startswith("FB "):
+                _bump(X["file_bytes_compared"], case["ds"][int(l.split(" ", 2)[1])]["fmt"])
     if kind == "S":
         key = (tuple(map(str, case["ds"])), tuple(map(tuple, case["ops"])), case["sched"])
         nontrivial = any(t.startswith("W:write") for t in meta["trace"])
@@ -397,7 +401,7 @@ def _feed(res: C.Result, items: List[Tuple[str, str, Any]], pool) -> None:
 
 def _init_extra(res: C.Result):
     for k in ("outcomes", "op_kinds", "formats", "data_sets_per_case", "gate_labels", "branches", "fmt_cases",
-              "fmt_paths", "fine_outcomes", "fine_gate_labels", "fine_branches", "fine_failure_hit_in"):
+              "fmt_paths", "file_bytes_compared", "fine_outcomes", "fine_gate_labels", "fine_branches", "fine_failure_hit_in"):
         res.extra.setdefault(k, {})
 
 
